@@ -146,7 +146,7 @@ func runC02(c *fw.Ctx) {
 	}
 
 	// the root is a function of content alone: not of the package's debug-logging switch either
-	if c.Idx%8 == 5 {
+	if (c.Idx/16+c.Idx)%8 == 5 {
 		util.DebugMPTNode = true
 		defer func() { util.DebugMPTNode = false }()
 		c.Count("cases_with_debug_switch_on", 1)
@@ -233,7 +233,7 @@ func runC02(c *fw.Ctx) {
 	}
 	// independent tries built at the same time in several goroutines (nothing shared between them but the package):
 	// every one must still arrive at the canonical root
-	if c.Idx%8 == 3 {
+	if (c.Idx/16+c.Idx)%8 == 3 {
 		roots := make([][]byte, len(hists))
 		var wg sync.WaitGroup
 		for hi := range hists {
